@@ -336,14 +336,21 @@ func registerStd(P *Program) {
 	nop := func(in *Interp, caller *frame, fn *ssa.Function, args []Value) Value { return nil }
 	r := P.reg
 
-	// sync
-	for _, n := range []string{"(*sync.Mutex).Lock", "(*sync.Mutex).Unlock", "(*sync.RWMutex).Lock", "(*sync.RWMutex).Unlock",
-		"(*sync.RWMutex).RLock", "(*sync.RWMutex).RUnlock", "(*sync.WaitGroup).Add", "(*sync.WaitGroup).Done", "(*sync.WaitGroup).Wait"} {
-		name := n
-		r(name, func(in *Interp, caller *frame, fn *ssa.Function, args []Value) Value {
-			in.yield(name, args[0])
+	// sync: no-ops when single-threaded; real mutual exclusion between logical threads under vf.Par
+	for _, n := range []string{"(*sync.Mutex).Lock", "(*sync.RWMutex).Lock", "(*sync.RWMutex).RLock"} {
+		r(n, func(in *Interp, caller *frame, fn *ssa.Function, args []Value) Value {
+			in.mutexLock(args[0])
 			return nil
 		})
+	}
+	for _, n := range []string{"(*sync.Mutex).Unlock", "(*sync.RWMutex).Unlock", "(*sync.RWMutex).RUnlock"} {
+		r(n, func(in *Interp, caller *frame, fn *ssa.Function, args []Value) Value {
+			in.mutexUnlock(args[0])
+			return nil
+		})
+	}
+	for _, n := range []string{"(*sync.WaitGroup).Add", "(*sync.WaitGroup).Done", "(*sync.WaitGroup).Wait"} {
+		r(n, nop)
 	}
 	r("(*sync.Mutex).TryLock", func(in *Interp, caller *frame, fn *ssa.Function, args []Value) Value { return in.ts.True() })
 	r("(*sync.Once).Do", func(in *Interp, caller *frame, fn *ssa.Function, args []Value) Value {
@@ -843,16 +850,15 @@ var opaqueMethods = map[string]func(in *Interp, op *Opaque, args []Value) Value{
 func (in *Interp) yield(what string, obj Value) {}
 
 func (in *Interp) hookTick(ch *ChanV) bool {
-	// a ticker fires a bounded number of times per path (set by harness through vf.Param "ticks", default 1)
-	n, _ := in.hooks["ticks"].(int)
+	// a ticker fires a bounded number of times (param "ticks", default 1), then never again
 	max := 1
 	if s, ok := in.params["ticks"]; ok {
 		max, _ = strconv.Atoi(s)
 	}
-	if n >= max {
+	if ch.Ticks >= max {
 		return false
 	}
-	in.hooks["ticks"] = n + 1
+	ch.Ticks++
 	return true
 }
 
